@@ -169,6 +169,10 @@ pub struct MuxScenario {
     /// stream position at which the muxer starts writing
     pub start_pos: u64,
     pub io: IoKnobs,
+    /// the sink already holds this many bytes (an older, possibly longer file that is being
+    /// overwritten in place); 0 = empty sink
+    #[serde(default)]
+    pub preexisting: u64,
 }
 
 // -------------------------------------------------------------------------------------------
@@ -670,11 +674,21 @@ pub fn gen_mux(r: &mut Rng, o: &GenOpts) -> MuxScenario {
         added += 1;
     }
     ops.push(Op::End);
+    // sink geometry (swarm knob): the movie may be written behind an application header and/or
+    // over an older, longer file
+    let (start_pos, preexisting) = match r.below(16) {
+        0 => (*r.pick(&[1u64, 8, 16, 4096]), 0),
+        1 => (r.below(100_000), 0),
+        2 => (0, 1 + r.below(200_000)),
+        3 => (r.below(5000), r.below(300_000)),
+        _ => (0, 0),
+    };
     let mut sc = MuxScenario {
         cfg,
         ops,
-        start_pos: 0,
+        start_pos,
         io,
+        preexisting,
     };
     if !o.hostile {
         fit_durations(&mut sc);
